@@ -85,6 +85,8 @@ def lower_targets(spec, failed=None):
             missed = []
             if t.pre_rules:
                 body, _ = X.apply_rules(body, t.pre_rules, what=t.name, missed=missed)
+            if t.refs:
+                body = X.lower_refs(body, what=t.name)
             if t.scoped:
                 body = X.lower_block_scoped(body, what=t.name, **t.scoped)
             if t.defers:
